@@ -204,8 +204,9 @@ class Shared:
         self.dir_vec = osyris.Vector(1.0, 2.0, 0.5)
         self.dir_basis = osyris.core.vector.VectorBasis(n=osyris.Vector(0.0, 1.0, 1.0), u=osyris.Vector(1.0, 0.0, 0.0))
         self.dir_basis_parts = [self.dir_basis.n, self.dir_basis.u, self.dir_basis.v]
-        self.dxq = 0.9 * osyris.units("cm")
-        self.dzq = 0.3 * osyris.units("cm")
+        # window sizes given in other length units than the positions (cm): a conversion happens inside map()
+        self.dxq = 9.0 * osyris.units("mm")
+        self.dzq = 0.003 * osyris.units("m")
         self.bins_list = np.array([1.0, 3.0, 8.0, 20.0, 41.0])
         self.weights = osyris.Array(values=np.linspace(1.0, 2.0, n), unit="g", name="w")
         h = case["hist1d_layer"]
